@@ -23,12 +23,8 @@ def CachedOK (cfg : Cfg) (L : Lib) (p : Prop') (e : Env) (v : Val) : Prop :=
     if need e then ∃ sk ct, e.get? kBody = some (.body sk ct) ∧ k e sk ct = .ok v else k0 e = .ok v
   | .special => True
 
-/-- `forms` / `files` are published by `POST` before it has succeeded: they count only once
-`post` is there too -/
-def Guard (p : Prop') (e : Env) : Prop := (p = .forms ∨ p = .files) → e.get? kPost ≠ none
-
 structure Inv (cfg : Cfg) (L : Lib) (e : Env) : Prop where
-  cached : ∀ p v, e.get? p.key = some v → Guard p e → CachedOK cfg L p e v
+  cached : ∀ p v, e.get? p.key = some v → CachedOK cfg L p e v
   postCons : e.get? kPost ≠ none → e.get? kForms ≠ none ∧ e.get? kFiles ≠ none
   noExt : e.get? kApp = none ∧ e.get? kRoute = none ∧ e.get? kUrlArgs = none
 
